@@ -25,6 +25,13 @@ class ElabWorld(world.World):
         super().__init__({"cond": {}, "capture": {}, "error": {}, "body": {}}, {})
         self.foreign_ids = {}
         self.keep = []
+        # callables that are neither functions, methods, exception classes nor exception instances
+        self.partial_error = functools.partial(ValueError, "x")
+
+        class _CallableError:
+            def __call__(self, *a, **k):
+                return ValueError("x")
+        self.callable_error = _CallableError()
 
     def foreign(self, k):
         W = self
